@@ -426,6 +426,34 @@ def check_props(pid):
     return len(names), discharged, details, problems
 
 
+def coqchk_props(pid):
+    """thorough tier: re-check Props/<pid>.vo and everything it depends on with the independent checker coqchk;
+    returns (summary dict, problems)."""
+    import shutil, glob
+    d = os.path.join(CACHE, "coqchk", "%s_%d" % (pid, os.getpid()))
+    shutil.rmtree(d, ignore_errors=True)
+    os.makedirs(os.path.join(d, "Props"))
+    try:
+        for f in glob.glob(os.path.join(COQ, "*.vo")):
+            os.symlink(f, os.path.join(d, os.path.basename(f)))
+        shutil.copy(os.path.join(COQ, "Props", pid + ".v"), os.path.join(d, "Props", pid + ".v"))
+        rc, out = sh("timeout 900 coqc -noglob -Q %s SLT %s/Props/%s.v" % (d, d, pid), cwd=d, check=False, timeout=1000)
+        if rc != 0:
+            return {}, ["coqchk: compiling Props/%s.v failed: %s" % (pid, out[-800:])]
+        rc, out = sh("timeout 3000 coqchk -o -silent -Q %s SLT SLT.Props.%s" % (d, pid), cwd=d, check=False, timeout=3100)
+    finally:
+        shutil.rmtree(d, ignore_errors=True)
+    if rc != 0:
+        return {}, ["coqchk failed on SLT.Props.%s: %s" % (pid, out[-1500:])]
+    summ = {}
+    for key, label in (("axioms", "Axioms"), ("type_in_type", "Constants/Inductives relying on type-in-type"),
+                       ("unsafe_fixpoints", "Constants/Inductives relying on unsafe (co)fixpoints"), ("assumed_positivity", "Inductives whose positivity is assumed")):
+        m = re.search(r"\* " + re.escape(label) + r":\s*(.*?)(?=\n\s*\n|\Z)", out, re.S)
+        summ[key] = m.group(1).strip() if m else "?"
+    probs = ["coqchk: %s = %s" % (k, v) for k, v in summ.items() if v != "<none>"]
+    return summ, probs
+
+
 # ----------------------------------------------------------------------------- findings / evidence
 
 def known_findings(pid):
